@@ -89,8 +89,12 @@ func c11ProcessDeals(c *Ctx) {
 			if cd.Op == token.ILLEGAL && strings.HasPrefix(p, "next(range(") {
 				continue
 			}
-			if (cd.Op == token.EQL || cd.Op == token.NEQ) && strings.HasSuffix(p, ".Index") && strings.Contains(ssax.Path(cd.Y), "d.ParticipantID") {
-				continue
+			if cd.Op == token.EQL || cd.Op == token.NEQ {
+				// the own-deal test, operands in either order
+				q := ssax.Path(cd.Y)
+				if (strings.HasSuffix(p, ".Index") && strings.Contains(q, "d.ParticipantID")) || (strings.HasSuffix(q, ".Index") && strings.Contains(p, "d.ParticipantID")) {
+					continue
+				}
 			}
 			extra = append(extra, p+" at "+c.PosOf(cd.If))
 		}
@@ -243,8 +247,14 @@ func c11Handler(c *Ctx) {
 			if cd.Op == token.LSS && strings.HasPrefix(ssax.Path(cd.Y), "len(") && strings.Contains(p, "phi(") {
 				continue // range loop bound
 			}
-			if (cd.Op == token.EQL || cd.Op == token.NEQ) && strings.HasSuffix(p, ".ParticipantId") && strings.HasSuffix(ssax.Path(cd.Y), ".ParticipantID") {
-				continue
+			if cd.Op == token.GTR && strings.HasPrefix(p, "len(") && strings.Contains(ssax.Path(cd.Y), "phi(") {
+				continue // the same bound written `len(xs) > i`
+			}
+			if cd.Op == token.EQL || cd.Op == token.NEQ {
+				q := ssax.Path(cd.Y)
+				if (strings.HasSuffix(p, ".ParticipantId") && strings.HasSuffix(q, ".ParticipantID")) || (strings.HasSuffix(q, ".ParticipantId") && strings.HasSuffix(p, ".ParticipantID")) {
+					continue
+				}
 			}
 			// a condition whose other branch ends the handler (rejects the operation) does not skip anything: only a branch
 			// that goes on to the next entry without decrypting this one does
